@@ -1000,6 +1000,31 @@ class Guard:
 
 
 def guards_of(model, fn, site_block, mode="value", _thread=True):
+    """the conditions under which `site_block` runs: its dominating branch conditions (nearest first) followed by its other
+    deciding conditions (vlib/ctrl.py: control dependence on the path-sensitive CFG - the second operand of `a || b`, the
+    condition a named temporary was computed from). Cached per (function, site, mode)."""
+    if not _thread:
+        return _dominating_guards(model, fn, site_block, mode, _thread)
+    key = (site_block, mode)
+    cache = fn.__dict__.setdefault("_guards_cache", {})
+    if key in cache:
+        return cache[key]
+    out = list(_dominating_guards(model, fn, site_block, mode, _thread))
+    try:
+        from .ctrl import deciding
+        have = {(g.b, repr(g.root), g.neg, tuple(sorted(g.labels))) for g in out}
+        for g in deciding(model, fn, site_block, mode):
+            k = (g.b, repr(g.root), g.neg, tuple(sorted(g.labels)))
+            if k not in have:
+                have.add(k)
+                out.append(g)
+    except (ValueError, RecursionError):
+        pass
+    cache[key] = out
+    return out
+
+
+def _dominating_guards(model, fn, site_block, mode="value", _thread=True):
     """dominating branch conditions of `site_block` (nearest first). See DESIGN Appendix B.1:
     for every dominator d that ends in a switch, the labels through which the site can be reached
     without passing d again; kept only if that is a proper subset of d's labels."""
@@ -1053,7 +1078,7 @@ def guards_of(model, fn, site_block, mode="value", _thread=True):
                 if vals:
                     want = [bi for bi, v in vals if v == g.truth]
                     if len(want) == 1 and fn.dominates(want[0], site_block) is False:
-                        for g2 in guards_of(model, fn, want[0], mode, _thread=False):
+                        for g2 in _dominating_guards(model, fn, want[0], mode, _thread=False):
                             if g2.b not in have:
                                 have.add(g2.b)
                                 extra.append(g2)
@@ -1084,7 +1109,7 @@ def guards_of(model, fn, site_block, mode="value", _thread=True):
                 continue
             hit = [bi for bi, v in ds if v == want]
             if len(hit) == 1 and not fn.dominates(hit[0], site_block):
-                for g2 in guards_of(model, fn, hit[0], mode, _thread=False):
+                for g2 in _dominating_guards(model, fn, hit[0], mode, _thread=False):
                     if g2.b not in have:
                         have.add(g2.b)
                         extra.append(g2)
